@@ -18,5 +18,6 @@ INVARIANT EmptyIsDocumented
 INVARIANT EmptyFormIsEmptyMapping
 INVARIANT MalformedIs400Class
 INVARIANT RoundTrip
+INVARIANT CustomErrorIsKept
 INVARIANT UnsupportedIs415
 PROPERTY MCNeverReparsed
